@@ -138,6 +138,19 @@ let () =
          if !bad = None && Array.length iarr <> !idx then bad := Some "shape";
          Printf.printf "%s | %s\n" (Buffer.contents buf)
            (match !bad with None -> "oracle=ok" | Some w -> "oracle=fail@" ^ w))
+    | "logt" :: ts ->
+      (* the `time` member of a jsonl log line is the iso8601 rendering of the event's own instant, whatever was
+         rendered before it on the same thread *)
+      let items = List.map (fun t -> match String.split_on_char ':' t with
+          | [s; y; m; d] -> (z_of_decimal s, hint_of y m d)
+          | _ -> failwith "bad logt item") ts in
+      let model = List.map (fun (s, hint) -> snd (model_instant hint s)) items in
+      let verdict =
+        if List.length itoks <> List.length items then "oracle=fail@shape"
+        else (match List.find_opt (fun ((s, _), i) -> not (oracle_iso_only s i)) (List.combine items itoks) with
+            | Some ((s, _), _) -> "oracle=fail@log-line-time@" ^ decimal_of_z s
+            | None -> "oracle=ok") in
+      Printf.printf "%s | %s\n" (String.concat " " model) verdict
     | ["secs"; s; n; y; m; d] ->
       let s0 = z_of_decimal s and hint = hint_of y m d and n = int_of_string n in
       let buf = Buffer.create (n * 21) in
